@@ -234,6 +234,24 @@ def r_spawn_all_then_wait(r, prog):
     r.floor(1)
 
 
+def r_generator_streams_piped(r, prog):
+    """stdin, stdout and stderr of a generator are all pipes of the compiler: the request goes down the first, the reply comes up the second, and
+    anything on the third makes the run a failure. An inherited (or null) stderr is never seen by wait_with_output(): a generator that reports
+    errors there and exits 0 would be trusted."""
+    sp = prog.fn('slicec_bin::spawn_plugin_process')
+    cmd = [c for c in sp.calls() if c.name() == 'spawn' and not sp.blocks[c.bb].get('cleanup')]
+    if len(cmd) != 1:
+        raise AnchorMissing('Command::spawn in spawn_plugin_process (found %d)' % len(cmd))
+    chain = vexpr(sp, cmd[0].args[0], depth=12)
+    how = {c.name(): vexpr(sp, c.args[1]) for c in sp.calls() if c.name() in ('stdin', 'stdout', 'stderr') and len(c.args) == 2 and not sp.blocks[c.bb].get('cleanup')}
+    missing = [st for st in ('stdin', 'stdout', 'stderr') if how.get(st) != 'piped()' or ('%s(' % st) not in chain]
+    if missing:
+        r.finding('generator-stream-not-piped:%s' % '+'.join(missing), cmd[0].span, 'the generator is spawned as %s: %s is not Stdio::piped()' % (chain[:160], ' and '.join(missing)))
+    else:
+        r.ok('stdin, stdout and stderr of the generator are piped')
+    r.floor(1)
+
+
 import codec as _codec
 
 
@@ -242,6 +260,8 @@ def run(ctx):
     ctx.run_rule('C18.1a', 'T3', 'every generator failure is converted into an Error::IO naming the generator and extended into the diagnostics', r_converter_names_generator, prog)
     from props import c19 as _c19
     ctx.run_rule('C18.2b', 'T2', 'every started generator is sent the request followed by its own arguments dictionary', _c19.r_arguments_always_sent, prog)
+    ctx.run_rule('C18.1c', 'T10', 'all three standard streams of a generator are pipes of the compiler', r_generator_streams_piped, prog)
+    ctx.run_rule('C18.5', 'T7', 'rendering a decode error never panics: panic-site ledger over slice-codec (an undecodable reply is reported through Display of the codec\'s error)', c11.r_codec_panic_ledger, prog)
     ctx.run_rule('C18.3b', 'T10', 'a collection decoder reads exactly the announced number of elements (a truncated sequence fails, it is not shortened)', _codec.r_element_count_is_announced, prog)
     ctx.run_rule('C18.1b', 'T3', 'every generator result is folded on every loop path; the wait loop has no early exit', c07.r_generator_results_folded, prog)
     ctx.run_rule('C18.1c', 'T7', 'no panic-capable site in the generator path', r_no_unwrap_in_generator_path, prog)
